@@ -44,6 +44,8 @@ def run(prog, tier) -> Result:
                 me.quantum = q
             if ratio_kind == "number":
                 ratios = [Num(RF.atom(("r", i)), "exact") for i in range(n)]
+            elif ratio_kind == "int":
+                ratios = [Num(RF.atom(("r", i)), "int") for i in range(n)]      # plain ints: shares stay exact
             else:
                 # quantity ratios of one type, each in its own unit
                 c.new_type("TR", has_ref=True, has_quantum=False, money=False)
@@ -76,7 +78,7 @@ def run(prog, tier) -> Result:
                         return ("a non-fresh quantity is mutated", f"{e[1]!r} at {e[4]}")
             a_self = st.norm(me.amount.rf)
             total_atoms = None
-            if ratio_kind == "number":
+            if ratio_kind in ("number", "int"):
                 rs = [RF.atom(("r", i)) for i in range(n)]
             else:
                 # the relative sizes of quantity ratios are their values (amount x scale), not their amounts
@@ -219,6 +221,11 @@ def run(prog, tier) -> Result:
                            setup(fl, n, rk, disperse), judge(fl, n, rk, disperse),
                            flag_kinds=("float-arith", "int-div", "none-operand", "none-attribute", "bad-unpack"))
 
+    cr.run("R06.1", al, "2 int ratio(s), disperse=True [ref+quantum]", setup("ref+quantum", 2, "int", True),
+           judge("ref+quantum", 2, "int", True),
+           flag_kinds=("float-arith", "int-div", "none-operand", "none-attribute", "bad-unpack"))
+    cr.run("R06.1", al, "2 int ratio(s) [ref]", setup("ref", 2, "int", True), judge("ref", 2, "int", True),
+           flag_kinds=("float-arith", "int-div", "none-operand", "none-attribute", "bad-unpack"))
     # the default is to disperse the rounding error
     def setup_default(c):
         args, kw = setup("ref+quantum", 2, "number", True)(c)
